@@ -368,9 +368,11 @@ class Polygon(Shape2D):
         # is important: we must translate before rotating so that the parallel
         # axis theorem can be applied in the reverse direction (rotating about
         # the origin before translating to the actual centroid).
+        # Work on a copy: the stored array may have been handed out to the caller.
         original_center = self.center.copy()
-        original_vertices = self._vertices.copy()
-        original_normal = self._normal.copy()
+        original_vertices = self._vertices
+        original_normal = self._normal
+        self._vertices = self._vertices.copy()
 
         self.center = (0, 0, 0)
         mat, _ = rowan.mapping.kabsch(
